@@ -31,7 +31,7 @@ import (
 type rrState struct {
 	px       *pxState
 	p        *proxy.Proxy
-	proxySrv *httptest.Server
+	proxyAddr string
 	origin   *httptest.Server
 	cancel   context.CancelFunc
 	ohost    string
@@ -76,13 +76,39 @@ func (s *rrState) start(base string) {
 			conn.Close()
 			return
 		}
+		if r.URL.Path == "/echoq" {
+			w.Header().Set("Cache-Control", "max-age=60")
+			w.Write([]byte("q=" + r.URL.RawQuery))
+			return
+		}
 		w.Header().Set("Cache-Control", "max-age=60")
 		io.Copy(io.Discard, r.Body)
 		w.Write([]byte("origin-body:" + r.URL.Path))
 	}))
 	ou, _ := url.Parse(s.origin.URL)
 	s.ohost = ou.Host
-	s.proxySrv = httptest.NewServer(p)
+	// the proxy's REAL entry point (Proxy.Listen -> httplistener), not a test server around ServeHTTP: whatever Listen
+	// puts between the socket and the handler is part of what a client talks to
+	ln, err := net.Listen("tcp", "127.0.0.1:0")
+	if err != nil {
+		die("rawreq: listen: %v", err)
+	}
+	s.proxyAddr = ln.Addr().String()
+	ln.Close()
+	errc := make(chan error, 2)
+	go p.Listen(s.proxyAddr, errc, ctx)
+	up := false
+	for i := 0; i < 400 && !up; i++ {
+		if c, err := net.DialTimeout("tcp", s.proxyAddr, 200*time.Millisecond); err == nil {
+			c.Close()
+			up = true
+		} else {
+			time.Sleep(5 * time.Millisecond)
+		}
+	}
+	if !up {
+		die("rawreq: Proxy.Listen did not come up on %s", s.proxyAddr)
+	}
 }
 
 func rrClassify(rd *bufio.Reader, conn net.Conn) string {
@@ -121,8 +147,30 @@ func init() {
 				if f[0] != "rr" {
 					die("rawreq: bad line %v", f)
 				}
+				if f[1] == "qpair" {
+					// two plain proxied GETs that differ only in the query string, through the real listener: each must be
+					// answered with ITS OWN resource (the origin echoes the query it received)
+					get := func(q string) string {
+						conn, err := net.DialTimeout("tcp", s.proxyAddr, 3*time.Second)
+						if err != nil {
+							return "dial-failed"
+						}
+						defer conn.Close()
+						conn.SetDeadline(time.Now().Add(4 * time.Second))
+						fmt.Fprintf(conn, "GET http://%s/echoq?%s HTTP/1.1\r\nHost: %s\r\nConnection: close\r\n\r\n", s.ohost, q, s.ohost)
+						resp, err := http.ReadResponse(bufio.NewReader(conn), nil)
+						if err != nil {
+							return "noresponse"
+						}
+						b, _ := io.ReadAll(resp.Body)
+						resp.Body.Close()
+						return fmt.Sprintf("%d:%s", resp.StatusCode, hx(string(b)))
+					}
+					o.Count("qpair")
+					return get(unhx(f[2])) + " " + get(unhx(f[3]))
+				}
 				head := strings.ReplaceAll(unhx(f[2]), "@ORIGIN@", s.ohost)
-				addr := strings.TrimPrefix(s.proxySrv.URL, "http://")
+				addr := s.proxyAddr
 				conn, err := net.DialTimeout("tcp", addr, 3*time.Second)
 				if err != nil {
 					return "dial-failed"
@@ -274,6 +322,16 @@ func init() {
 					head += x
 				} else {
 					head += x + "\r\n"
+				}
+				if i%10 == 3 {
+					qs := []string{"a=1", "a=1&b=2", "a=1;b=2", "tags=x;y&page=2", "tags=x&y&page=2", "a=1%3Bb=2", "a=%26", "a=+", "a=%20", "a=b=c", "a", "", "a=1&&b", ";", "&", "x=%zz", "q=a|b"}
+					q1 := r.Pick(qs)
+					q2 := r.Pick(qs)
+					if r.Chance(60) {
+						// differ only in a separator or an escape
+						q2 = r.Pick([]string{strings.Replace(q1, ";", "&", 1), strings.Replace(q1, "&", ";", 1), strings.Replace(q1, "%3B", ";", 1), strings.Replace(q1, "+", "%20", 1), q1 + "&", "&" + q1})
+					}
+					emit("rr", "qpair", hx(q1+fmt.Sprintf("&n=%d", i)), hx(q2+fmt.Sprintf("&n=%d", i)))
 				}
 				if i%25 == 7 {
 					p := r.Pick([]string{"/trunc-cl", "/trunc-chunked", "/trunc-cl-nostore", "/trunc-chunked-nostore"})
